@@ -104,3 +104,46 @@ func VH_C08_DecideAsap() {
 	verifrt.Reach("C08-asap:done")
 	e.finish()
 }
+
+// VH_C08_RestartFinalized: one process life of 2-3 events out of {view with new precommit
+// numbers, driver finalization, step timer} from a quiet start with a header (this reaches: round
+// left on a nil quorum, commit of A in round 0 or 1, finalization stored while in commit wait,
+// height advanced), then the process dies and a new state machine comes up on the same stores
+// through the real start-up path, then 1 (quick) / 2 (thorough) events. The rules span both
+// lives: a height whose finalization is stored is over (next entrance is height+1 round 0, no
+// second finalize request for it), otherwise the round it was in is resumed.
+func VH_C08_RestartFinalized() {
+	vhOpts()
+	e := vhNewSM(true)
+	e.symEntrances = 0
+	e.laterEntrancePHs = true
+	if !e.start() {
+		return
+	}
+	e.check(chkC08)
+	kinds := []int{evViewPC, evFinalization, evTimer}
+	e.run(chkC08, kinds, 2+verifrt.Choose("events-before-restart", 2))
+	if !e.alive {
+		return
+	}
+	stored := false
+	if _, _, _, _, err := e.fs.LoadFinalizationByHeight(e.ctx, e.cur.h); err == nil {
+		stored = true
+	}
+	if !e.restart() {
+		return
+	}
+	e.check(chkC08)
+	if stored {
+		verifrt.Reach("C08-restart:died-with-the-finalization-stored-and-the-height-not-advanced")
+	}
+	if e.cur.r > 0 {
+		verifrt.Reach("C08-restart:restarted-in-a-later-round")
+	}
+	n := 1
+	if verifrt.Thorough() {
+		n = 2
+	}
+	e.run(chkC08, vhTailEvents, n)
+	e.finish()
+}
